@@ -11,6 +11,7 @@ import (
 	"path/filepath"
 	"sort"
 	"strings"
+	"sync"
 
 	"golang.org/x/tools/go/packages"
 )
@@ -34,6 +35,8 @@ type World struct {
 	Lemmas    map[string]*Lemma
 	LemmaOrd  []string
 	RepoPaths map[string]bool // package paths that belong to the repository (or extracted code)
+	written   map[string]bool // struct fields assigned somewhere after allocation (modref.go); nil = not yet computed
+	writtenMu sync.Mutex
 	EmittedPaths map[string]bool // package paths of extracted emitted code
 	extTypes map[string]types.Type
 	Emitted *packages.Package
@@ -156,6 +159,9 @@ func (w *World) bindNames() {
 		"v3":           "github.com/pb33f/libopenapi/datamodel/high/v3",
 		"yaml":         "go.yaml.in/yaml/v4",
 		"json":         "encoding/json",
+		"k8syaml":      "sigs.k8s.io/yaml",
+		"main":         modPath + "/cmd/protoc-gen-openapiv3", // the only plugin main with logic of its own
+		"pluginpb":     "google.golang.org/protobuf/types/pluginpb",
 		"time":         "time",
 		"utf8":         "unicode/utf8",
 		"context":      "context",
